@@ -32,7 +32,7 @@ ASSUMPTIONS = [
 PROBES = ["ops", "plain_ops", "show_ops", "save_ops", "show_and_save_ops", "bulk_save_ops", "bulk_save_all_invalid", "bulk_save_empty",
           "outcome_unchanged", "outcome_fixed", "outcome_failed", "preview_hsl", "preview_alpha", "preview_tuple", "preview_named",
           "plain_after_preview", "report_files_written", "tty_runs", "no_color_runs", "decoy_runs", "subprocess_phase",
-          "slot_ops", "invalid_pair_with_show"]
+          "slot_ops", "invalid_pair_with_show", "chdir_ops", "report_after_chdir"]
 
 QUICK = "cm_colors_quick_report.html"
 BULK = "cm_colors_bulk_report.html"
@@ -71,6 +71,8 @@ def generate(rseed, tier, idx):
         m = g.random()
         mode = g.choice((0, 1, 1, 2, None))
         vr = g.random() < 0.35
+        if g.random() < 0.08:
+            ops.append({"op": "chdir", "to": g.choice(("cwd", "cwd/sub", "cwd2", "cwd2/deep"))})
         if m < 0.08:
             t, b, large, tk = _pair(g)
             ops.append({"op": "color", "v": g.choice((t, b))})
@@ -149,6 +151,9 @@ def execute(trace):
     oracles = []
     for op in trace["ops"]:
         sop = _strip(op)
+        if sop["op"] == "chdir":
+            oracles.append({})
+            continue
         if sop["op"] == "newpair":
             ctx_model.slot_spec[sop["slot"]] = {"t": sop["t"], "b": sop["b"], "large": sop.get("large", False)}
         eq = apiops.plain_variant(apiops.fresh_equivalent(sop, ctx_model))
@@ -181,8 +186,10 @@ def execute(trace):
         seen_preview_change = False
         nontrivial = False
 
+        cur = ["cwd"]
+
         def run(op):
-            with apiops.Effects(root, tty=env["tty"], no_color=env["no_color"]) as fx:
+            with apiops.Effects(root, tty=env["tty"], no_color=env["no_color"], cwd_rel=cur[0]) as fx:
                 r = apiops.run_op(op, ctx)
             return r, fx.summary()
 
@@ -196,6 +203,13 @@ def execute(trace):
 
         for i, op in enumerate(trace["ops"]):
             sop = _strip(op)
+            if sop["op"] == "chdir":
+                # the caller changes its working directory between calls (os.chdir in the caller's process)
+                cur[0] = sop["to"]
+                os.makedirs(os.path.join(root, cur[0]), exist_ok=True)
+                bump("chdir_ops")
+                events.append((i, "chdir", cur[0]))
+                continue
             bump("ops")
             preview = bool(sop.get("show") or sop.get("save"))
             orc = oracles[i]
@@ -270,13 +284,13 @@ def execute(trace):
             must = None
             if sop.get("save"):
                 if sop["op"] in ("make", "make_on"):
-                    allowed.add("cwd/" + QUICK)
+                    allowed.add(cur[0] + "/" + QUICK)
                     if orc.get("valid"):
-                        must = "cwd/" + QUICK
+                        must = cur[0] + "/" + QUICK
                 else:
-                    allowed.add("cwd/" + BULK)
+                    allowed.add(cur[0] + "/" + BULK)
                     if orc.get("n_valid", 0) > 0:
-                        must = "cwd/" + BULK
+                        must = cur[0] + "/" + BULK
             touched = set(fxs["created"]) | set(fxs["changed"]) | set(fxs["removed"])
             for w in fxs["writes"]:
                 if w[0] == "open":
@@ -291,12 +305,14 @@ def execute(trace):
                 wrote = any(e[0] == "open" and e[1] == must and "w" in e[2] and e[3] == "ok" for e in fxs["io"]) or must in fxs["created"] or must in fxs["changed"]
                 if wrote:
                     bump("report_files_written")
+                    if cur[0] != "cwd":
+                        bump("report_after_chdir")
                 else:
                     V("report-missing", i, op, expected=must)
         # ---- real-subprocess phase: plain operations only, real fds on pipes
         if trace.get("subproc"):
             bump("subprocess_phase")
-            plain_ops = [_strip(o) for o in trace["ops"] if o["op"] in ("color", "pair", "make", "bulk")]
+            plain_ops = [_strip(o) for o in trace["ops"] if o["op"] in ("color", "pair", "make", "bulk")]  # (chdir ops are not part of it)
             plain_ops = [apiops.plain_variant(o) for o in plain_ops]
             sroot = base.new_sandbox("c17sub")
             try:
